@@ -13,6 +13,7 @@ import numpy
 
 from mpv import arr, models, trace
 
+ANCHORS = ['mpilot/program.py:Program.run', 'mpilot/commands.py:Command.result', 'mpilot/commands.py:Command.run', 'mpilot/params.py:ResultParameter.clean', 'mpilot/params.py:ListParameter.clean', 'mpilot/utils.py:flatten']   # repository functions the workload must enter (reported as anchors_reached / anchors_missed)
 LEVEL = "exploration"
 RULE = ("(i) all 64 edge subsets of the 4-node topological order x 24 textual orders x 3 reference styles (quick: 1 in 6); (ii) random DAGs "
         "of 1-14 probe commands (fan-in <=5, repeated references, list / nested-list references, string parameters that collide with "
